@@ -53,4 +53,16 @@ def _c18(v):
     return None
 
 
-_CLASSIFIERS = {"C18": _c18}
+def _c16(v):
+    d = v.get("detail") or {}
+    if (
+        v.get("monitor") == "M-band"
+        and d.get("function") == "fixed_width_band_ci"
+        and "Could not initialise search for displacement" in str(d.get("exc", ""))
+        and d.get("nb_hard_pos", 0) > 16 * d.get("nb_hard_neg", 0) > 0  # slope k = sqrt(n_neg/n_pos) < 1/4
+    ):
+        return "fwb-bracket-imbalanced"
+    return None
+
+
+_CLASSIFIERS = {"C18": _c18, "C16": _c16}
